@@ -44,6 +44,11 @@ class CallSeam:
         self.count = 0
         self.k = None
         self.fired = None
+        self.marks: list[int] = []
+
+    # entering one of these means "the model is being changed now": the call indices are reported so that the
+    # simulator can aim faults at the window in which per-call state has been written but not yet cleaned up
+    MARKERS = frozenset({"replace_nodes_and_values", "replace_all_uses_with"})
 
     def _trace(self, frame, event, arg):
         if event == "call":
@@ -51,13 +56,15 @@ class CallSeam:
             if fn.startswith(self.prefixes):
                 c = self.count
                 self.count = c + 1
+                if frame.f_code.co_name in self.MARKERS and len(self.marks) < 64:
+                    self.marks.append(c)
                 if c == self.k:
                     self.fired = f"{os.path.basename(fn)}:{frame.f_code.co_name}"
                     raise InjectedFault(f"injected at call #{c} ({self.fired})")
         return None
 
     def start(self, k):
-        self.count, self.k, self.fired = 0, k, None
+        self.count, self.k, self.fired, self.marks = 0, k, None, []
         sys.settrace(self._trace)
 
     def stop(self):
@@ -350,6 +357,19 @@ class Runtime:
             if rules is None:
                 raise ValueError(f"no rule set in {name}")
             rs = rules
+        elif name.startswith("ort:"):
+            import importlib
+
+            mods = name.split(":", 1)[1].split(",")
+            rules = []
+            for mn in mods:
+                mod = importlib.import_module("onnxscript.rewriter.ort_fusions." + mn)
+                for attr in sorted(dir(mod)):
+                    v = getattr(mod, attr)
+                    if isinstance(v, pattern.RewriteRuleSet):
+                        rules.extend(v.rules)
+                        break
+            rs = pattern.RewriteRuleSet(rules)
         elif name == "llama_sets":
             from onnxscript.rewriter.rules.common import _gemm_to_matmul_add, _matmul_add_to_gemm
 
@@ -472,6 +492,8 @@ class Runtime:
             if count:
                 self.seam.stop()
                 rec["calls"] = self.seam.count
+                if op.get("count_calls"):
+                    rec["marks"] = list(self.seam.marks)
                 if self.seam.fired is not None:
                     rec["faulted"] = True
                     rec["fault_site"] = self.seam.fired
@@ -540,6 +562,11 @@ def main() -> int:
     import onnxscript.rewriter.rules.fusion._layer_norm  # noqa: F401
     import onnxscript.rewriter.rules.fusion._rms_normalization  # noqa: F401
     import onnxscript.rewriter.rules.fusion._rotary_embedding  # noqa: F401
+    import onnxscript.rewriter.ort_fusions.bias_gelu  # noqa: F401
+    import onnxscript.rewriter.ort_fusions.erfgelu  # noqa: F401
+    import onnxscript.rewriter.ort_fusions.gelu  # noqa: F401
+    import onnxscript.rewriter.ort_fusions.rms_normalization  # noqa: F401
+    import onnxscript.rewriter.ort_fusions.softmax  # noqa: F401
     try:  # the rule tests' model-building modules import these; import once so forked children do not
         import parameterized  # noqa: F401
         import onnxscript.rewriter.testing  # noqa: F401
